@@ -8,7 +8,7 @@ import threading
 from hypothesis import strategies as st
 
 from vf import canon, decomp, gen_macro, gen_prog, gen_ssb, results, sched
-from vf.core import Failure
+from vf.core import Failure, weighted
 
 ID = "C12"
 LEVEL = "exploration"
@@ -35,7 +35,7 @@ def job_items():
     prog = st.one_of(gen_prog.programs(max_stmts=12, with_control=True), gen_macro.macro_programs(single_file=True, max_stmts=15, with_control=True))
     p_item = prog.map(lambda p: {"kind": "program", "prog": p})
     s_item = decomp.input_strategy(w1=1, w2=1, w3=2, max_stmts=12).map(lambda c: {"kind": "ssb", "case": c})
-    return st.one_of(p_item, s_item, s_item, p_item, s_item, s_item, deep_item(), failing_item())
+    return weighted((2, p_item), (4, s_item), (1, deep_item()), (1, failing_item()))
 
 
 def failing_item():
@@ -74,7 +74,7 @@ def strategy(tier):
     })
     free_case = st.fixed_dictionaries({"mode": st.just("free"), "jobs": st.lists(job_items(), min_size=2, max_size=4), "dup": st.booleans(), "schedule": st.just([])})
     cold_case = sched_case.map(lambda c: dict(c, mode="cold"))
-    return st.one_of(sched_case, sched_case, sched_case, free_case, cold_case)
+    return weighted((3, sched_case), (1, free_case), (1, cold_case))
 
 
 def make_job(item):
